@@ -15,7 +15,54 @@ var decOne = func() *Term {
 }()
 
 // truncDiv: big.Int.Quo semantics (truncate toward zero) — same as Go integer division.
-func truncDiv(a, b *Term) *Term { return Div(a, b) }
+func truncDiv(a, b *Term) *Term {
+	if b.Op == "int" && b.Int.Sign() > 0 {
+		coef, rest := constFactor(a)
+		if rest != nil && coef.Sign() > 0 {
+			if new(big.Int).Rem(coef, b.Int).Sign() == 0 {
+				// (c*b*t)/b = c*t exactly
+				return Mul(BigLit(new(big.Int).Quo(coef, b.Int)), rest)
+			}
+			if new(big.Int).Rem(b.Int, coef).Sign() == 0 {
+				// (c*t)/(c*d) = t/d for truncating division, c > 0
+				return Div(rest, BigLit(new(big.Int).Quo(b.Int, coef)))
+			}
+		}
+	}
+	return Div(a, b)
+}
+
+// constFactor splits a product into its constant coefficient and the product of the remaining factors
+// (rest == nil when x is not a product with a constant factor).
+func constFactor(x *Term) (*big.Int, *Term) {
+	coef := big.NewInt(1)
+	var rest *Term
+	found := false
+	var walk func(t *Term)
+	walk = func(t *Term) {
+		if t.Op == "*" {
+			for _, a := range t.Args {
+				walk(a)
+			}
+			return
+		}
+		if t.Op == "int" {
+			coef.Mul(coef, t.Int)
+			found = true
+			return
+		}
+		if rest == nil {
+			rest = t
+		} else {
+			rest = Mul(rest, t)
+		}
+	}
+	walk(x)
+	if !found || rest == nil {
+		return big.NewInt(1), nil
+	}
+	return coef, rest
+}
 
 // bankers: round-half-even of x / p for p > 0 (LegacyDec chopPrecisionAndRound).
 func bankers(x, p *Term) *Term {
@@ -26,6 +73,12 @@ func bankers(x, p *Term) *Term {
 		return Ite(Lt(Mul(two, r), p), q,
 			Ite(Gt(Mul(two, r), p), Add(q, IntLit(1)),
 				Ite(Eq(EMod(q, two), IntLit(0)), q, Add(q, IntLit(1)))))
+	}
+	if p.Op == "int" && p.Int.Sign() > 0 {
+		if coef, rest := constFactor(x); rest != nil && new(big.Int).Rem(coef, p.Int).Sign() == 0 {
+			// exact: no rounding
+			return Mul(BigLit(new(big.Int).Quo(coef, p.Int)), rest)
+		}
 	}
 	if x.Op == "int" && p.Op == "int" {
 		// constant fold
